@@ -2,18 +2,19 @@ package main
 
 import (
 	"context"
-	"sync/atomic"
-	"io"
-	"encoding/json"
-	"os"
-	"path/filepath"
 	"crypto/x509"
+	"encoding/json"
 	"errors"
 	"fmt"
+	"io"
 	"math/big"
 	"net/http"
+	"os"
+	"path/filepath"
+	"runtime"
 	"sort"
 	"sync"
+	"sync/atomic"
 	"time"
 
 	"github.com/notaryproject/notation-core-go/revocation"
@@ -96,19 +97,28 @@ type crlDelivery struct {
 }
 
 type revCase struct {
-	Entry   int // 0 = ValidateContext, 1 = ocsp.CheckStatus, 2 = Validate
-	Purpose string
-	Chain   *revChain
-	OCSP    map[string]ocspBehav   // by URL
-	CRL     map[string]crlDelivery // by URL
-	HTTPCRL bool                   // deliver CRLs through the real HTTPFetcher over the transport
-	ST      time.Time              // zero = no signing time
-	Cancel  string                 // "" | "before" | "during" (at the first exchange) | "after1" (once the first exchange has completed); only with one certificate naming sources and Entry 0
-	Labels  []string
-	Iso     *revCase // C06 isolation companion: same chain, the URLs of position IsoPos behave identically, all others differently
-	IsoPos  int
+	Entry    int // 0 = ValidateContext, 1 = ocsp.CheckStatus, 2 = Validate
+	Purpose  string
+	Chain    *revChain
+	OCSP     map[string]ocspBehav   // by URL
+	CRL      map[string]crlDelivery // by URL
+	HTTPCRL  bool                   // deliver CRLs through the real HTTPFetcher over the transport
+	ST       time.Time              // zero = no signing time
+	Cancel   string                 // "" | "before" | "during" (at the first exchange) | "after1" (once the first exchange has completed); only with one certificate naming sources and Entry 0
+	Labels   []string
+	Iso      *revCase // C06 isolation companion: same chain, the URLs of position IsoPos behave identically, all others differently
+	IsoPos   int
 	CRLFault map[string]string // by URL, with HTTPCRL and FetchErr: how the download fails (503 | 404 | empty | garbage | oversized | truncated | transport | timeout | readerr)
-	Cache   string            // with HTTPCRL: "" no cache | "miss" | "getfail" | "setfail" | "getfail-discard" | "setfail-discard" | "stale" (expired entry cached)
+	Cache    string            // with HTTPCRL: "" no cache | "miss" | "getfail" | "setfail" | "getfail-discard" | "setfail-discard" | "stale" (expired entry cached)
+	Order    []int             // C17: completion order of the per-certificate exchanges (certificate positions), enforced by a barrier
+	PanicAt  map[int]string    // C17: the exchange of the certificate at that position panics with this value
+	Callers  int               // C17: number of concurrent callers sharing validator, client and fetcher (0 = one call)
+	// outputs of the C17 observations
+	PanicValue     string
+	GoroutineDelta int
+	CallersAgree   bool
+	Summary        string // results of the main call
+	WantCallers    string // if set: what the concurrent callers must see (results of a reference run without cancellation)
 }
 
 type certOut struct {
@@ -145,7 +155,7 @@ func runRevCaseFull(c *revCase) (string, string, map[string]any, []certOut, bool
 	switch c.Cancel {
 	case "before", "during":
 		allowed = 0
-	case "after1":
+	case "after1", "after1done":
 		allowed = 1
 	}
 	desc := map[string]any{"entry": c.Entry, "purpose": c.Purpose, "len": len(xs), "labels": c.Labels, "http_crl": c.HTTPCRL, "cancel": c.Cancel}
@@ -185,7 +195,7 @@ func runRevCaseFull(c *revCase) (string, string, map[string]any, []certOut, bool
 			cancelled := contactable > allowed
 			if d.PanicV != nil {
 				wf.res[u] = fetchResult{panicV: d.PanicV}
-			} else if d.FetchErr || cancelled {
+			} else if d.FetchErr {
 				wf.res[u] = fetchResult{err: errors.New("fetch failed (injected)")}
 				rt.handlers[u] = crlFaultHandler(c.CRLFault[u], issuer)
 				dd["fault"] = c.CRLFault[u]
@@ -215,6 +225,12 @@ func runRevCaseFull(c *revCase) (string, string, map[string]any, []certOut, bool
 				if c.HTTPCRL && (c.Cache == "getfail" || c.Cache == "setfail") {
 					term = "FetchErr" // the cache failure is returned as the fetch error
 				}
+				if cancelled {
+					term = "FetchErr" // the context is cancelled by then: the genuine server is never heard (the handler stays genuine for other callers)
+				}
+				if c.HTTPCRL && d.Delta != nil && (c.Cancel == "after1" || c.Cancel == "after1done") && contactable == allowed {
+					term = "FetchErr" // the base download is the last exchange that completes: the delta download is cancelled
+				}
 			}
 			cd[u] = dd
 			fetchTerms = append(fetchTerms, fmt.Sprintf("(%d, %s)", urlIDs.id([]byte(u)), term))
@@ -229,7 +245,9 @@ func runRevCaseFull(c *revCase) (string, string, map[string]any, []certOut, bool
 		if err != nil {
 			panic(err)
 		}
-		if c.Cache != "" {
+		if c.Cache == "mem" {
+			hf.Cache = &memCache{m: map[string]*crlpkg.Bundle{}}
+		} else if c.Cache != "" {
 			hf.Cache = &faultCache{mode: c.Cache, stale: staleBundleFor(c)}
 			hf.DiscardCacheError = c.Cache == "getfail-discard" || c.Cache == "setfail-discard"
 		}
@@ -250,6 +268,15 @@ func runRevCaseFull(c *revCase) (string, string, map[string]any, []certOut, bool
 	if c.Cancel == "before" {
 		cancel()
 	}
+	if c.Cancel == "after1done" { // cancel as soon as the first exchange has completed
+		var ndone int32
+		rt.onDone = func(string) {
+			if atomic.AddInt32(&ndone, 1) == 1 {
+				cancel()
+			}
+		}
+		wf.onDone = rt.onDone
+	}
 	if c.Cancel == "during" || c.Cancel == "after1" {
 		var nreq int32
 		hook := func(string) {
@@ -259,29 +286,107 @@ func runRevCaseFull(c *revCase) (string, string, map[string]any, []certOut, bool
 		}
 		rt.onReq, wf.onReq = hook, hook
 	}
+	// C17: injected panics and the schedule barrier
+	for i, v := range c.PanicAt {
+		v := v
+		for _, u := range xs[i].OCSPServer {
+			rt.handlers[u] = func(*http.Request) (*http.Response, error) { panic(v) }
+		}
+		for _, u := range xs[i].CRLDistributionPoints {
+			wf.res[u] = fetchResult{panicV: v}
+			rt.handlers[u] = func(*http.Request) (*http.Response, error) { panic(v) }
+		}
+	}
+	if len(c.Order) > 0 {
+		bar := newBarrier(c.Order)
+		hook := func(u string) {
+			if i, ok := urlOwner[u]; ok {
+				bar.arrive(i)
+			}
+		}
+		rt.onReq, wf.onReq = hook, hook
+		go bar.run()
+		defer bar.stop()
+	}
 	noteCurrentCase(desc)
+	goroutinesBefore := runtime.NumGoroutine()
 	now := time.Now()
 	var res []*result.CertRevocationResult
 	var err error
 	panicked := false
+	var validator revocation.Validator
+	call := func() (rs []*result.CertRevocationResult, e error) {
+		switch c.Entry {
+		case 0:
+			if validator == nil {
+				v, e := revocation.NewWithOptions(revocation.Options{OCSPHTTPClient: client, CRLFetcher: fetcher, CertChainPurpose: purp})
+				if e != nil {
+					panic(e)
+				}
+				validator = v
+			}
+			return validator.ValidateContext(ctx, revocation.ValidateContextOptions{CertChain: xs, AuthenticSigningTime: c.ST})
+		case 1:
+			return revocsp.CheckStatus(revocsp.Options{CertChain: xs, CertChainPurpose: purp, SigningTime: c.ST, HTTPClient: client})
+		}
+		return nil, nil
+	}
 	func() {
 		defer func() {
 			if r := recover(); r != nil {
 				panicked = true
 				desc["panic"] = fmt.Sprint(r)
+				c.PanicValue = fmt.Sprint(r)
 			}
 		}()
-		switch c.Entry {
-		case 0:
-			v, e := revocation.NewWithOptions(revocation.Options{OCSPHTTPClient: client, CRLFetcher: fetcher, CertChainPurpose: purp})
-			if e != nil {
-				panic(e)
-			}
-			res, err = v.ValidateContext(ctx, revocation.ValidateContextOptions{CertChain: xs, AuthenticSigningTime: c.ST})
-		case 1:
-			res, err = revocsp.CheckStatus(revocsp.Options{CertChain: xs, CertChainPurpose: purp, SigningTime: c.ST, HTTPClient: client})
-		}
+		res, err = call()
 	}()
+	c.Summary = summarizeResults(res, err)
+	evsMain := seq.all() // the exchanges of this call (before any concurrent-caller phase adds its own)
+	// nothing is left behind: the goroutines the call started have finished when it returns
+	c.GoroutineDelta = 0
+	for k := 0; k < 20; k++ {
+		c.GoroutineDelta = runtime.NumGoroutine() - goroutinesBefore
+		if len(c.Order) > 0 {
+			c.GoroutineDelta-- // the barrier controller
+		}
+		if c.GoroutineDelta <= 0 {
+			break
+		}
+		time.Sleep(time.Millisecond)
+	}
+	// concurrent callers sharing the validator, the client and the fetcher must all see the same results
+	c.CallersAgree = true
+	if c.Callers > 1 && !panicked {
+		rt.onReq, wf.onReq = nil, nil
+		want := summarizeResults(res, err)
+		if c.WantCallers != "" {
+			want = c.WantCallers
+			ctx = context.Background() // the other callers are not cancelled
+		}
+		var cwg sync.WaitGroup
+		var mu sync.Mutex
+		for k := 0; k < c.Callers; k++ {
+			cwg.Add(1)
+			go func() {
+				defer cwg.Done()
+				defer func() {
+					if r := recover(); r != nil {
+						mu.Lock()
+						c.CallersAgree = false
+						mu.Unlock()
+					}
+				}()
+				rs, e := call()
+				if summarizeResults(rs, e) != want {
+					mu.Lock()
+					c.CallersAgree = false
+					mu.Unlock()
+				}
+			}()
+		}
+		cwg.Wait()
+	}
 	stZ := int64(0)
 	if !c.ST.IsZero() {
 		stZ = c.ST.UnixNano()
@@ -293,7 +398,7 @@ func runRevCaseFull(c *revCase) (string, string, map[string]any, []certOut, bool
 	if panicked {
 		implTerm = "None"
 	} else if err == nil {
-		evs := seq.all() // delta downloads (URL + ".delta") are not owned by a certificate slot and are skipped
+		evs := evsMain // delta downloads (URL + ".delta") are not owned by a certificate slot and are skipped
 		var items []string
 		for i, r := range res {
 			co := certOut{}
@@ -381,7 +486,9 @@ func crlFaultHandler(kind string, issuer *Cert) rtHandler {
 	case "empty":
 		return func(*http.Request) (*http.Response, error) { return httpBody(200, nil) }
 	case "garbage":
-		return func(*http.Request) (*http.Response, error) { return httpBody(200, []byte("-----BEGIN X509 CRL-----\nnot der\n")) }
+		return func(*http.Request) (*http.Response, error) {
+			return httpBody(200, []byte("-----BEGIN X509 CRL-----\nnot der\n"))
+		}
 	case "truncated":
 		der := buildCRL(crlSpec{Number: 5, Next: "+1h", Signer: "issuer"}, issuer, big.NewInt(1))
 		return func(*http.Request) (*http.Response, error) { return httpBody(200, der[:len(der)/2]) }
@@ -433,4 +540,101 @@ func staleBundleFor(c *revCase) *crlpkg.Bundle {
 	}
 	der := buildCRL(crlSpec{Number: 4, Next: "-1h", Signer: "issuer"}, c.Chain.certs[1], c.Chain.certs[0].X.SerialNumber)
 	return &crlpkg.Bundle{BaseCRL: mustParseCRL(der)}
+}
+
+func summarizeResults(rs []*result.CertRevocationResult, err error) string {
+	s := fmt.Sprint(err != nil)
+	for _, r := range rs {
+		if r == nil {
+			s += "|nil"
+			continue
+		}
+		s += fmt.Sprintf("|%d/%d", r.Result, r.RevocationMethod)
+		for _, sr := range r.ServerResults {
+			s += fmt.Sprintf(",%d@%s", sr.Result, sr.Server)
+		}
+	}
+	return s
+}
+
+// barrier: holds the first exchange of every listed certificate until all of them have arrived, then
+// releases them one at a time in the given order
+type barrier struct {
+	order   []int
+	gates   map[int]chan struct{}
+	arrived chan int
+	quit    chan struct{}
+	once    sync.Once
+}
+
+func newBarrier(order []int) *barrier {
+	b := &barrier{order: order, gates: map[int]chan struct{}{}, arrived: make(chan int, 64), quit: make(chan struct{})}
+	for _, i := range order {
+		b.gates[i] = make(chan struct{})
+	}
+	return b
+}
+func (b *barrier) arrive(i int) {
+	g, ok := b.gates[i]
+	if !ok {
+		return
+	}
+	select {
+	case <-g: // already released: later exchanges of this certificate pass
+		return
+	default:
+	}
+	select {
+	case b.arrived <- i:
+	default:
+	}
+	select {
+	case <-g:
+	case <-b.quit:
+	case <-time.After(3 * time.Second):
+	}
+}
+func (b *barrier) run() {
+	seen := map[int]bool{}
+	deadline := time.After(2 * time.Second)
+	for len(seen) < len(b.order) {
+		select {
+		case i := <-b.arrived:
+			seen[i] = true
+		case <-b.quit:
+			return
+		case <-deadline:
+			seen = nil
+			for _, i := range b.order { // give up waiting: release everything
+				close(b.gates[i])
+			}
+			return
+		}
+	}
+	for _, i := range b.order {
+		close(b.gates[i])
+		time.Sleep(1500 * time.Microsecond) // let this certificate's check run to completion before the next is released
+	}
+}
+func (b *barrier) stop() { b.once.Do(func() { close(b.quit) }) }
+
+// memCache: a plain shared in-memory crl.Cache
+type memCache struct {
+	mu sync.Mutex
+	m  map[string]*crlpkg.Bundle
+}
+
+func (c *memCache) Get(ctx context.Context, url string) (*crlpkg.Bundle, error) {
+	c.mu.Lock()
+	defer c.mu.Unlock()
+	if b, ok := c.m[url]; ok {
+		return b, nil
+	}
+	return nil, crlpkg.ErrCacheMiss
+}
+func (c *memCache) Set(ctx context.Context, url string, b *crlpkg.Bundle) error {
+	c.mu.Lock()
+	defer c.mu.Unlock()
+	c.m[url] = b
+	return nil
 }
